@@ -51,6 +51,10 @@ func c10Pool() []string {
 		// 20/21: the same instruction lines with labels as memory addresses, the labels at different addresses
 		/* 20 */ "\tORG 0x7c00\n\tMOV AX,[counter]\n\tADD WORD [counter],1\n\tCMP BYTE [flag],0\n\tMOV BX,counter\n\tHLT\ncounter:\n\tDW 0\nflag:\n\tDB 0\n",
 		/* 21 */ "\tORG 0x7c00\n\tNOP\n\tMOV CX,0x1234\n\tMOV AX,[counter]\n\tADD WORD [counter],1\n\tCMP BYTE [flag],0\n\tMOV BX,counter\n\tHLT\nflag:\n\tDB 0,0,0\ncounter:\n\tDW 0\n",
+		// 22/23: a long image of non-zero bytes, and a short program that reserves large zero regions (what an output
+		// buffer kept from an earlier, longer assembly would show through)
+		/* 22 */ "\tDB \"" + strings.Repeat("N", 9000) + "\"\n\tDD 0xeeeeeeee,0xeeeeeeee\n",
+		/* 23 */ "\tDB 1\n\tRESB 5000\n\tDB 2\n\tRESB 0x2000-$\n\tDB 3\n\tALIGNB 4096\n\tDB 4\n",
 	}
 }
 
